@@ -893,7 +893,6 @@ _scale("C04", "scale_iovec", ["A", "R", "P"], 8, 320, 640)
 _scale("C05", "scale_iovec", ["A", "S", "T", "L", "R", "P"], 8, 320, 640)
 _scale("C05", "scale_codec", ["A", "S", "T", "L", "R", "G"], 4, 160, 320, 4)
 _scale("C09", "scale_codec", ["A", "S", "G", "R"], 4, 160, 320, 4)
-_scale("C09", "scale_iovec", ["A", "R", "P"], 8, 320, 640)
 _scale("C10", "scale_iovec", ["L", "P"], 8, 320, 640)
 _scale("C10", "scale_codec", ["L", "G"], 4, 160, 320, 4)
 _scale("C20", "scale_iovec", ["A", "R", "P"], 8, 320, 640)
